@@ -315,6 +315,67 @@ theorem fixstr_pf (f : Nat) (s : Bytes) (h : s.length ≤ 31) (j : Nat) (hj : j 
 theorem valid_sanitize {s : Bytes} (h : validUTF8 s = true) : sanitizeX s = s := by
   simpa [validUTF8] using h
 
+/-! ### ext types (as they are) -/
+
+theorem ext8_rt (f : Nat) (ty : UInt8) (b rest : Bytes) (h : b.length < 256) :
+    decT (f + 1) (byte 0xc7 :: (toBE 1 b.length ++ (ty :: (b ++ rest)))) = .ok (.str b, rest) := by
+  rw [decT_byte f 0xc7 _ (.ext 1) (by decide) (by decide)]
+  have h1 := readU_toBE 1 b.length (ty :: (b ++ rest)) (by omega)
+  have h2 : readN 1 (ty :: (b ++ rest)) = .ok ([ty], b ++ rest) := readN_append' 1 [ty] _ rfl
+  simp [runKind, extFn, h1, h2, readN_append]
+
+theorem ext8_pf (f : Nat) (ty : UInt8) (b : Bytes) (h : b.length < 256) (j : Nat)
+    (hj : j < (byte 0xc7 :: (toBE 1 b.length ++ ty :: b)).length) :
+    decT (f + 1) ((byte 0xc7 :: (toBE 1 b.length ++ ty :: b)).take j) = .err .eof := by
+  cases j with
+  | zero => rfl
+  | succ j =>
+    rw [take_succ_byte, decT_byte f 0xc7 _ (.ext 1) (by decide) (by decide)]
+    simp only [runKind, extFn]
+    simp [toBE_length] at hj
+    by_cases h0 : j < 1
+    · rw [readU_short]
+      simp [List.length_take, toBE_length]; omega
+    · rw [take_append_of_le _ _ _ (by rw [toBE_length]; omega), readU_toBE 1 b.length _ (by omega), toBE_length]
+      cases hj1 : j - 1 with
+      | zero => simp [readN]
+      | succ m =>
+        have h2 : readN 1 (ty :: b.take m) = .ok ([ty], b.take m) := readN_append' 1 [ty] _ rfl
+        simp only [List.take_succ_cons, h2]
+        rw [readN_short]
+        simp [List.length_take]; omega
+
+theorem kindOf_fixext (n : Nat) (h : n = 1 ∨ n = 2 ∨ n = 4 ∨ n = 8 ∨ n = 16) :
+    fixextType n < 256 ∧ kindOf (fixextType n) = some (.fixext n) := by
+  rcases h with rfl | rfl | rfl | rfl | rfl <;> decide
+
+theorem fixext_rt (f : Nat) (ty : UInt8) (b rest : Bytes)
+    (h : b.length = 1 ∨ b.length = 2 ∨ b.length = 4 ∨ b.length = 8 ∨ b.length = 16) :
+    decT (f + 1) (byte (fixextType b.length) :: (ty :: (b ++ rest))) = .ok (.str b, rest) := by
+  have ⟨h1, h2⟩ := kindOf_fixext b.length h
+  rw [decT_byte f _ _ _ h1 h2]
+  have h3 : readN 1 (ty :: (b ++ rest)) = .ok ([ty], b ++ rest) := readN_append' 1 [ty] _ rfl
+  simp [runKind, fixextFn, h3, readN_append]
+
+theorem fixext_pf (f : Nat) (ty : UInt8) (b : Bytes)
+    (h : b.length = 1 ∨ b.length = 2 ∨ b.length = 4 ∨ b.length = 8 ∨ b.length = 16) (j : Nat)
+    (hj : j < (byte (fixextType b.length) :: ty :: b).length) :
+    decT (f + 1) ((byte (fixextType b.length) :: ty :: b).take j) = .err .eof := by
+  have ⟨h1, h2⟩ := kindOf_fixext b.length h
+  cases j with
+  | zero => rfl
+  | succ j =>
+    rw [take_succ_byte, decT_byte f _ _ _ h1 h2]
+    simp only [runKind, fixextFn]
+    cases j with
+    | zero => simp [readN]
+    | succ m =>
+      have h3 : readN 1 (ty :: b.take m) = .ok ([ty], b.take m) := readN_append' 1 [ty] _ rfl
+      simp only [List.take_succ_cons, h3]
+      rw [readN_short]
+      simp at hj
+      simp [List.length_take]; omega
+
 /-! ### the main induction -/
 
 def RT (f : Nat) (x : W) : Prop := ∀ rest, decT f (encode x ++ rest) = .ok (value x, rest)
@@ -412,6 +473,14 @@ theorem rt_step (f : Nat) (ih : ∀ y, valid y = true → (encode y).length < f 
       rw [readU_toBE 4 kvs.length _ (by rw [pow4]; exact hlen)]
       exact mapFn_ok (decT f) kvs rest helem
 
+  | ext8 ty b =>
+    simp only [valid, decide_eq_true_eq] at hv
+    simp only [encode, value, List.cons_append, List.append_assoc]
+    exact ext8_rt f ty b rest hv
+  | fixext ty b =>
+    simp only [valid, decide_eq_true_eq] at hv
+    simp only [encode, value, List.cons_append, List.append_assoc]
+    exact fixext_rt f ty b rest hv
 
 theorem pf_step (f : Nat) (ihrt : ∀ y, valid y = true → (encode y).length < f → RT f y)
     (ihpf : ∀ y, valid y = true → PF f y) (x : W) (hv : valid x = true) : PF (f + 1) x := by
@@ -504,6 +573,12 @@ theorem pf_step (f : Nat) (ihrt : ∀ y, valid y = true → (encode y).length < 
           (fun p hp => ⟨fun hle => (hrt p hp).1 (by omega), fun hle => (hrt p hp).2 (by omega)⟩)
           (fun p hp => ⟨fun i hi hij => (hpf p hp).1 i hi (by omega), fun i hi hij => (hpf p hp).2 i hi (by omega)⟩)
           (by simp [toBE_length] at hk; omega)
+  | ext8 ty b =>
+    simp only [valid, decide_eq_true_eq] at hv
+    exact ext8_pf f ty b hv k hk
+  | fixext ty b =>
+    simp only [valid, decide_eq_true_eq] at hv
+    exact fixext_pf f ty b hv k hk
 
 theorem main (f : Nat) :
     (∀ x, valid x = true → (encode x).length < f → RT f x) ∧ (∀ x, valid x = true → PF f x) := by
@@ -526,6 +601,8 @@ theorem reprOK_value : ∀ x, valid x = true → reprOK (value x) = true
   | .f64 _, _ => by simp [value, reprOK]
   | .str _ _, _ => by simp [value, reprOK]
   | .bin _ _, _ => by simp [value, reprOK]
+  | .ext8 _ _, _ => by simp [value, reprOK]
+  | .fixext _ _, _ => by simp [value, reprOK]
   | .arr _ xs, h => by
     simp only [valid, Bool.and_eq_true] at h
     simp [value, reprOK, reprOKL_value xs h.2]
